@@ -19,10 +19,10 @@ from props import c08_hist
 PROP = "C08"
 LEVEL = "proof"
 GEN_UNITS = []
-COQ_TARGETS = ["Props/C08.vo", "Props/C08b.vo", "Model/C08Inst.vo", "Model/C08Inst2.vo", "Model/Harness.vo"]
-THEOREM_FILES = ["Props/C08.v", "Props/C08b.v"]
+COQ_TARGETS = ["Props/C08.vo", "Props/C08b.vo", "Props/C08c.vo", "Model/C08Inst.vo", "Model/C08Inst2.vo", "Model/C08Inst3.vo", "Model/Harness.vo"]
+THEOREM_FILES = ["Props/C08.v", "Props/C08b.v", "Props/C08c.v"]
 COQ_IMPORTS = ("From Coq Require Import List ZArith QArith Qcanon Bool.\n"
-               "From PV Require Import Base.Index Base.Perm Model.Repr Model.Harness Model.C08Kruskal Model.C08Inst Model.C08More Model.C08Inst2.\n")
+               "From PV Require Import Base.Index Base.Perm Model.Repr Model.Harness Model.C08Kruskal Model.C08Inst Model.C08More Model.C08Inst2 Model.C08Loop Model.C08Inst3.\n")
 RULE = ("Kruskal tensors with 1-4 modes (1-way included), mode sizes 1-4, ranks 1-4, integer factor columns with exactly "
         "representable norms (zero columns included), weights of either sign and zero; every weight_factor (None, each mode, "
         "'all'), sort on/off, both norm types, mode=; every component permutation for R<=4 (thorough; sampled in quick) and "
@@ -34,23 +34,28 @@ RULE = ("Kruskal tensors with 1-4 modes (1-way included), mode sizes 1-4, ranks 
         "score, fixsigns(other)), inputs general / already unit-norm columns with signed weights / symmetric up to column signs; after "
         "every step raw weights+factors (or vector/list) are compared with the chained model state, the denoted array and the normal "
         "form are re-evaluated on pyttb's result, and every object a step must not touch (receiver of a non-mutating op, second "
-        "operands, and the fresh result when the history continues with the old object) is compared with its snapshot; mask(W)")
+        "operands, and the fresh result when the history continues with the old object) is compared with its snapshot; mask(W). MAGNITUDES: ~35 % of "
+        "the histories and ~25 % of the single-step normalize / arrange / tolist / fixsigns(other) / score cases run on data scaled by powers of two "
+        "(weights and / or single factors times 2^-24 .. 2^24; for exact N-th roots 2^-N*j), compared with purely relative (raw entries) and "
+        "max-relative (sums) tolerances. fixsigns(other): pyttb is compared with the literal column loop (Model/C08Loop.v) and the loop with the "
+        "one-shot model exactly; references with MORE components than the receiver are sent too (open finding C08-N2)")
 CORRESPONDENCE_ONLY = ["score: the congruence / penalty matrix (np.abs(A.T @ B), products, 1 - |la-lb|/max) is an executable Qc model compared per "
                        "case (best_perm and best_score, whenever the greedy choice is pinned = no tie among free cells); the THEOREMS cover the "
                        "greedy loop on an arbitrary matrix (permutation, greedy choice, score sum) and the final arrange(permutation); that the "
                        "matrix entries exceed -10 is a hypothesis (they are products of absolute values and penalties in [0,1])",
-                       "fixsigns(other): the column loop (two in-place normalisations, per-component flips applied to self one after the other) is "
-                       "compared with the model per case; the theorems cover the pairing rule (literal breakpt/endpt arithmetic = model rule), "
-                       "invariance, parity and the sign-agreement normal form of the model",
-                       "ktensor.symmetrize: executable transliteration (normalize('all'), sign alignment with factor 0, per-flip weight toggle, "
-                       "average, odd-order repair) compared per case incl. histories; no denotation theorem (the value is kept only for inputs "
-                       "whose factors agree up to column signs: evaluated per case)",
+                       "ktensor.symmetrize: C08's executable transliteration k_symmetrize_core (normalize('all'), sign alignment with factor 0, "
+                       "per-flip weight toggle, average, odd-order repair) is compared per case incl. histories; the value theorems (identical "
+                       "factors, symmetric result, factors identical up to column signs keep the value) are C15_ksym_* in Props/C15.v on C15's "
+                       "transliteration k15_core and are not duplicated here",
+                       "magnitudes: data scaled by 2^-24 .. 2^24 is exercised by the correspondence stream only (relative tolerances)",
                        "multi-step histories, memory layouts (C-contiguous / non-contiguous factors) and operand aliasing: compared per case "
                        "(model state chained through the steps); numpy memory order is not modelled in Coq",
                        "normal form w.r.t. numpy's own norm: the theorems assume the norm oracle satisfies nrm_spec (positively homogeneous, even, "
                        "zero on zero columns; instantiated and proved for the exact 1-norm over Qc); np.linalg.norm itself is tied by the "
                        "per-case evaluation of unit columns / zero weights on pyttb's result"]
-NOTES = ["A-29 (fixsigns(other) odd flips), A-22 (fixsigns(other) normalised `other` in place) and A-45 (arrange accepted non-permutations) are "
+NOTES = ["C08-N2 (open): fixsigns(other) with a reference of MORE components than the receiver raises IndexError (the loop runs over the "
+         "reference's components and indexes the receiver's columns); model = the loop restricted to the components that have a counterpart",
+         "A-29 (fixsigns(other) odd flips), A-22 (fixsigns(other) normalised `other` in place) and A-45 (arrange accepted non-permutations) are "
          "repaired in /repo: the model IS the repaired pairing rule, fixsigns(other) must leave `other` untouched (compared per case), no trigger "
          "or witness remains; theorem C08_invariant_arrange_perm requires is_perm, the generator only sends permutations"]
 ASSUMPTIONS = ["normal-form theorems assume the norm oracle is a norm (nrm_scale, nrm_flip, nrm_zero, pos_inv) — numpy's np.linalg.norm itself is not verified",
@@ -61,6 +66,32 @@ EXPLANATION = ("Invariance theorems hold for every norm oracle that is positive 
                "weight, sign agreement after fixsigns(other)) hold for every oracle meeting nrm_spec; permute / update / from_vector / "
                "tolist / score's arrange are theorems on the same model. The correspondence stream ties the executable model (exact "
                "oracles over Qc / Z) to pyttb/ktensor.py on generated inputs and re-evaluates every normal-form clause on pyttb's result.")
+
+
+# ----------------------------------------------------------------------------------------------------------------
+# open findings: trigger = exactly the input class, witness = replay on pyttb
+# ----------------------------------------------------------------------------------------------------------------
+def _fso_more_components(c):
+    return c.op == "fixsigns_other" and len(c.args["w2"]) > len(c.args["w"])
+
+
+def _witness_n2():
+    import warnings
+    import numpy as np
+    import pyttb as ttb
+    A = ttb.ktensor([np.array([[1.0], [2.0]]), np.array([[3.0], [4.0]])], np.array([1.0]))
+    B = ttb.ktensor([np.array([[1.0, -2.0], [2.0, 1.0]]), np.array([[3.0, 1.0], [4.0, -1.0]])], np.array([1.0, 2.0]))
+    try:
+        with warnings.catch_warnings():
+            warnings.simplefilter("ignore")
+            A.fixsigns(B)
+    except IndexError as ex:
+        return f"rank-1 receiver, rank-2 reference: IndexError: {ex}"
+    return None
+
+
+TRIGGERS = {"fixsigns_other_more_components": _fso_more_components}
+WITNESSES = {"C08-N2": _witness_n2}
 
 
 # ----------------------------------------------------------------------------------------------------------------
@@ -244,11 +275,13 @@ def gen_cases(rng, tier):
         N = len(shape)
         if any(m == 1 for m in shape) and not big:
             continue
-        for RA, RB in ((1, 1), (2, 2), (3, 2), (3, 3)):
+        for RA, RB in ((1, 1), (2, 2), (3, 2), (3, 3), (1, 2), (2, 3)):
             pats = list(itertools.product([1, -1], repeat=N))
             for pat in pats:
                 if not big and N >= 3 and RA > 1 and rng.random() < 0.5:
                     continue
+                if RB > RA and rng.random() < (0.5 if big else 0.8):
+                    continue                # a reference with MORE components than the receiver (open finding C08-N2)
                 c_ = gen_fixsigns_other(rng, shape, RA, RB, pat)
                 if c_ is not None:
                     cases.append(c_)
@@ -284,6 +317,23 @@ def gen_cases(rng, tier):
             c_.args["lay"] = c08_hist.rand_lay(rng, len(c_.args["f"]))
             if "f2" in c_.args:
                 c_.args["lay2"] = c08_hist.rand_lay(rng, len(c_.args["f2"]))
+    # ---- magnitudes: about a quarter of the single-step cases evaluated over Qc run on data scaled by powers of two
+    #      (2^-24 .. 2^24, i.e. 6e-8 .. 2e7; weights and / or single factors), compared with RELATIVE tolerances
+    for c_ in cases:
+        if c_.op in ("normalize", "arrange", "tolist", "fixsigns_other", "score") and rng.random() < 0.25:
+            a_ = c_.args
+            need_root = a_.get("wf") == "all" or (c_.op == "tolist" and a_["mode"] is None)
+            sc = c08_hist.rand_scale(rng, len(a_["f"]), need_root)
+            try:
+                st_ = c08_hist.st_copy(c08_hist.eff({"w": a_["w"], "f": a_["f"], "sc": sc}))
+                if c_.op == "tolist" and a_["mode"] is None:
+                    [c08_hist.froot(abs(x), len(a_["f"])) for x in st_[0]]
+                else:
+                    wf_ = a_.get("wf") if c_.op == "normalize" else a_.get("mode") if c_.op == "tolist" else None
+                    c08_hist.m_normalize(st_, wf_, False, a_.get("normtype", 2), a_.get("mode") if c_.op == "normalize" else None)
+                a_["sc"] = sc
+            except c08_hist.Inexact:
+                pass
     # ---- multi-step histories over the op alphabet (layouts, aliasing of operands, inputs already in normal form, symmetrize)
     import sys
     cases += c08_hist.gen_hist(rng, sys.modules[__name__], tier)
@@ -302,6 +352,9 @@ def gen_fixsigns_other(rng, shape, RA, RB, pat):
         for n, m in enumerate(shape):
             cols2 = []
             for r in range(RB):
+                if r >= RA:                 # no counterpart in the receiver: any column
+                    cols2.append(list(rng.choice(sq_pool(m))))
+                    continue
                 a = [f[n][i][r] for i in range(m)]
                 want = pat[n] if r == 0 else rng.choice([1, -1])
                 b = None
@@ -327,7 +380,7 @@ def fso_scores(a):
     """exact per-component, per-mode sign scores of fixsigns(other) after both normalisations (2-norm; the sign step of
     normalize negates column r of factor 0 when the weight is negative)"""
     out = []
-    RB = len(a["w2"])
+    RB = min(len(a["w2"]), len(a["w"]))
     for r in range(RB):
         sc = []
         for n, (A, B) in enumerate(zip(a["f"], a["f2"])):
@@ -356,7 +409,7 @@ def run_impl(c):
     if c.op == "hist":
         return c08_hist.run_hist(c)
     try:
-        K = mk_k(ttb, np, a["w"], a["f"], a.get("lay"))
+        K = mk_k(ttb, np, *c08_hist.eff(a), a.get("lay"))
         if c.op == "normalize":
             K.normalize(weight_factor=a["wf"], sort=a["sort"], normtype=a["normtype"], mode=a["mode"])
             return {"ok": tgen.obs_ktensor(np, K)}
@@ -463,6 +516,13 @@ def shape_of(f):
 
 
 def coq_check(c, o):
+    e = coq_check0(c, o)
+    if e is not None and c.op != "hist" and c.args.get("sc"):
+        e = c08_hist.rel_comparers(e)
+    return e
+
+
+def coq_check0(c, o):
     a = c.args
     if c.op == "hist":
         return c08_hist.coq_hist(c, o)
@@ -480,7 +540,7 @@ def coq_check(c, o):
         return (f"let K := {K} in vec_eqb (zk_py_mask {subs} K) {gzlist(o['vals'])} && "
                 f"vec_eqb (map (zden_k K) {subs}) {gzlist(o['vals'])} && zk_eqb K {gzk(ob['weights'], ob['factors'])}")
     if c.op in ("normalize", "arrange"):
-        K = gqk(a["w"], a["f"])
+        K = gqk(*c08_hist.eff(a))
         O = gqk(ob["weights"], ob["factors"])
         if c.op == "normalize":
             model = f"qk_normalize {a['normtype']} {gwf(a['wf'])} false {gonat(a['mode'])} K"
@@ -503,27 +563,30 @@ def coq_check(c, o):
         return (f"let K := {K} in let O := {O} in {agree} && qk_den_close {shp} K O"
                 + "".join(" && " + x for x in nf))
     if c.op == "fixsigns_other":
-        K = gqk(a["w"], a["f"])
+        K = gqk(*c08_hist.eff(a))
         L = gqk(a["w2"], a["f2"])
         O = gqk(ob["weights"], ob["factors"])
         ties = any(len(set(abs(x) for x in sc)) < len(sc) or any(x == 0 for x in sc) for sc in fso_scores(a))
-        agree = "true" if ties else "qk_close (qk_fixsigns_other K L) O && qk_sign_nf K L O"
+        # pyttb against the literal column loop (Model/C08Loop.v); the loop against the one-shot model, exactly (theorem
+        # C08_fixsigns_other_loop; ties or not: both use the same stable argsort)
+        loop = "qk_eqb (qk_py_fixsigns_other K L) (qk_fixsigns_other K L)"
+        agree = loop if ties else f"qk_close (qk_py_fixsigns_other K L) O && {loop} && qk_sign_nf K L O"
         same_other = "true" if (o["other"]["weights"] == a["w2"] and o["other"]["factors"] == a["f2"]) else "false"
         return f"let K := {K} in let L := {L} in let O := {O} in {agree} && qk_den_close {shp} K O && {same_other}"
     if c.op == "tolist":
-        K = gqk(a["w"], a["f"])
+        K = gqk(*c08_hist.eff(a))
         F = gqmats(ob["factors"])
         model = "qk_tolist K" if a["mode"] is None else f"qk_tolist_mode {int(a['mode'])} K"
         return (f"let K := {K} in let F := {F} in qmats_close ({model}) F && "
                 f"qk_den_close {shp} K (qk_ones_k F {len(a['w'])})")
     if c.op == "score":
-        K = gqk(a["w"], a["f"])
+        K = gqk(*c08_hist.eff(a))
         O = gqk(ob["weights"], ob["factors"])
         p = o["perm"]
         if sorted(p) != list(range(len(a["w"]))):
             return "false"
         L = gqk(a["w2"], a["f2"])
-        extra = c08_hist.score_clause(a["w"], a["f"], a["w2"], a["f2"], p, o["score"])
+        extra = c08_hist.score_clause(*c08_hist.eff(a), a["w2"], a["f2"], p, o["score"])
         return (f"let K := {K} in let L := {L} in let O := {O} in "
                 f"qk_close (qk_gather {gnlist(p)} (qk_normalize 2 WNone false None K)) O && qk_den_close {shp} K O && {extra}")
     if not all_int_k(ob):
@@ -600,6 +663,13 @@ def oracle(c, o):
     if not finite(ob):
         return "non-finite value in the result"
     shape = shape_of(a["f"])
+    ew, ef = c08_hist.eff(a)
+    dclose = close
+    if a.get("sc"):
+        scale = max([abs(den(ew, ef, i)) for i in tgen.all_subs(shape)] + [Fraction(0)])
+
+        def dclose(x, y, tol=Fraction(1, 10 ** 9)):        # relative to the size of the data (no absolute floor of 1)
+            return abs(Fraction(x) - Fraction(y)) <= tol * max(abs(Fraction(y)), scale)
     if c.op == "mask":
         if sorted(o["subs"]) != sorted(a["marked"]) or len(o["vals"]) != len(o["subs"]):
             return "mask(W) does not list exactly the marked entries"
@@ -624,7 +694,7 @@ def oracle(c, o):
     if shape_of(ob["factors"]) != shape:
         return f"shape changed: {shape_of(ob['factors'])}"
     for i in tgen.all_subs(shape):
-        before = den(a["w"], a["f"], i)
+        before = den(ew, ef, i)
         after = den(ob["weights"], ob["factors"], i)
         if c.op in ("add", "sub"):
             other = den(a["w2"], a["f2"], i)
@@ -638,7 +708,7 @@ def oracle(c, o):
             want = den([a["w"][r] for r in idx], [[[row[r] for r in idx] for row in A] for A in a["f"]], i)
         else:
             want = before
-        if not close(after, want):
+        if not dclose(after, want):
             return f"denoted array differs at {i}: {float(after)} instead of {float(want)}"
     w = [Fraction(x) for x in ob["weights"]]
     if c.op in ("normalize", "arrange") and a.get("mode") is None:
@@ -666,4 +736,6 @@ def oracle(c, o):
                 return f"normalize(mode={a['mode']}): component {r} has a zero column in that mode but weight {float(w[r])}"
     if c.op == "redistribute" and any(x != 1 for x in w):
         return "weights not all one after redistribute"
+    if c.op == "fixsigns_other":
+        return c08_hist.sign_agreement(a["w"], a["f"], a["w2"], a["f2"], ob["factors"])
     return None
